@@ -694,3 +694,40 @@ def wire_name_is_read_after_the_module_flag_was_applied(ctx):
                   'every read of the exported name that feeds the registration comes after `accessible.export = False`',
                   f'`{src(early[0]) if early else ""}` takes the exported name before `if not self.export: accessible.export = False` runs: the '
                   'accessibles of a module that is not exported are still entered into accessiblename2attr and can be changed / executed by name', aa)
+
+
+@rule('C04.R10', min_instances=1)
+def a_limit_of_zero_is_a_limit(ctx):
+    """Module.checkLimits (behind the generated check_<param> hooks, between validate and the driver): whether a limit parameter
+    EXISTS is asked by identity / by the AttributeError of getattr - the current VALUE of `<p>_min` / `<p>_max` is never truth
+    tested.  `if limit and value < limit` skips a limit that currently is 0: a change beyond it reaches write_<p>"""
+    m = ctx.m
+    cl = m.method(roles.MODULE, 'checkLimits', inherited=False)
+    ctx.analysed(cl)
+    lim = {st.targets[0].id for st in body_walk(cl.node) if isinstance(st, ast.Assign) and len(st.targets) == 1 and isinstance(st.targets[0], ast.Name)
+           and isinstance(st.value, ast.Call) and dotted(st.value.func) == 'getattr' and len(st.value.args) >= 2
+           and any(isinstance(x, ast.Constant) and isinstance(x.value, str) and x.value in ('_min', '_max') for x in ast.walk(st.value.args[1]))}
+    for st in body_walk(cl.node):
+        # conditional expressions `getattr(..) if present else default` bind a limit as well
+        if isinstance(st, ast.Assign) and len(st.targets) == 1 and isinstance(st.targets[0], ast.Name) and isinstance(st.value, ast.IfExp) \
+                and any(isinstance(c, ast.Call) and dotted(c.func) == 'getattr' for c in ast.walk(st.value)) \
+                and any(isinstance(x, ast.Constant) and x.value in ('_min', '_max') for x in ast.walk(st.value)):
+            lim.add(st.targets[0].id)
+    for l in [x for x in body_walk(cl.node) if isinstance(x, ast.For) and isinstance(x.iter, (ast.Tuple, ast.List)) and isinstance(x.target, ast.Tuple)]:
+        for i, t in enumerate(l.target.elts):
+            if isinstance(t, ast.Name) and all(isinstance(e, ast.Tuple) and i < len(e.elts) and isinstance(e.elts[i], ast.Name) and e.elts[i].id in lim for e in l.iter.elts):
+                lim.add(t.id)
+    hits = []
+    for x in body_walk(cl.node):
+        tests = [x.test] if isinstance(x, (ast.If, ast.IfExp, ast.While)) else []
+        for t in tests:
+            atoms = [t]
+            while any(isinstance(a, (ast.BoolOp, ast.UnaryOp)) for a in atoms):
+                atoms = [y for a in atoms for y in (a.values if isinstance(a, ast.BoolOp) else [a.operand] if isinstance(a, ast.UnaryOp) and isinstance(a.op, ast.Not) else [a])
+                         ] if any(isinstance(a, ast.BoolOp) or (isinstance(a, ast.UnaryOp) and isinstance(a.op, ast.Not)) for a in atoms) else atoms
+                if not any(isinstance(a, ast.BoolOp) or (isinstance(a, ast.UnaryOp) and isinstance(a.op, ast.Not)) for a in atoms):
+                    break
+            hits += [(a, t) for a in atoms if isinstance(a, ast.Name) and a.id in lim]
+    ctx.check(not hits, f'{cl.qualname}:limit values are not truth tested', hits[0][1] if hits else cl.node, f'the limit locals {sorted(lim) or "-"} are compared, never truth tested',
+              f'`{src(hits[0][1]) if hits else ""}` asks for the truth value of `{hits[0][0].id if hits else ""}`: a limit parameter whose current value is 0 counts as absent, '
+              'a value beyond it passes the check and is handed to the driver', cl)
